@@ -9,6 +9,7 @@ open Lungo.C14
 #print axioms Lungo.C14.project_check_order
 #print axioms Lungo.C14.mix_is_error
 #print axioms Lungo.C14.mix_is_never_ok
+#print axioms Lungo.C14.mix_elemMatch_is_error
 #print axioms Lungo.C14.id_exclusion_is_not_mixing
 #print axioms Lungo.C14.slice_window_count
 #print axioms Lungo.C14.slice_count_formulas
